@@ -63,7 +63,7 @@ MANIFEST = {
                  "offsets)",
 }
 CONFIGS = {
-    "quick": [("nofault", 26000), ("failing", 16000), ("extended", 3000)],
+    "quick": [("nofault", 18000), ("failing", 10000), ("extended", 2000)],
     "thorough": [("nofault", 5), ("failing", 4), ("extended", 1)],
 }
 CHUNK = 250
